@@ -3,6 +3,7 @@
 package mc
 
 import (
+	"bytes"
 	"fmt"
 	"time"
 
@@ -21,6 +22,7 @@ type Cast struct {
 	S3             *User // second selector of R1 (two selectors of one reporter)
 	Tipper, Payer  *User
 	ModeQ, ModeQ2  []byte // short-window weighted-mode queries
+	ModeQ3         []byte // a weighted-mode query whose id sorts after the cycle-list (weighted-median) queries; ModeQ and ModeQ2 sort before them
 	ETH, BTC, TRBQ []byte
 	Dep1           []byte // deposit query id 1
 	Wd1            []byte // withdrawal query id 1
@@ -46,6 +48,12 @@ func StdSetup(w *World, mintOn bool) *Cast {
 	c := &Cast{R1: w.Usr[0], R2: w.Usr[1], S1: w.Usr[2], S2: w.Usr[3], Tipper: w.Usr[4], Payer: w.Usr[5], S3: w.Usr[6]}
 	c.ETH, c.BTC, c.TRBQ = SpotQuery("eth", "usd"), SpotQuery("btc", "usd"), SpotQuery("trb", "usd")
 	c.ModeQ, c.ModeQ2 = CustomQuery(ModeType, 1), CustomQuery(ModeType, 2)
+	for n := uint64(3); c.ModeQ3 == nil; n++ {
+		q := CustomQuery(ModeType, n)
+		if bytes.Compare(QID(q), QID(c.ETH)) > 0 && bytes.Compare(QID(q), QID(c.BTC)) > 0 && bytes.Compare(QID(q), QID(c.TRBQ)) > 0 {
+			c.ModeQ3 = q
+		}
+	}
 	c.Dep1, c.Wd1 = BridgeQuery(true, 1), BridgeQuery(false, 1)
 	mustBlock(w, time.Second) // stake tracker baseline is taken at the first EndBlock
 	must(w, "delegate R1", MsgDelegate(c.R1.Acc, w.Vals[0], 100*TRB))
